@@ -50,7 +50,7 @@ VARIABLES opts, op, fam, code, rule
 ovars == <<opts, op, fam, code, rule>>
 
 Default == [encode |-> "text", dry |-> FALSE, exts |-> "none", target |-> "A", strict |-> FALSE,
-            noiter |-> FALSE, massive |-> FALSE, brL |-> "std", brI |-> "std"]
+            noiter |-> FALSE, massive |-> "no", brL |-> "std", brI |-> "std"]
 
 \* config.go: one option applied to the configuration
 Apply(c, o) ==
@@ -65,7 +65,8 @@ Apply(c, o) ==
     [] o = "targetA"  -> [c EXCEPT !.target = "A"]
     [] o = "strict"   -> [c EXCEPT !.strict = TRUE]
     [] o = "noiter"   -> [c EXCEPT !.noiter = TRUE]
-    [] o = "massive"  -> [c EXCEPT !.massive = TRUE]
+    [] o = "massive"  -> [c EXCEPT !.massive = "yes"]
+    [] o = "mcancel"  -> [c EXCEPT !.massive = "cancelled"]   \* WithMassive(ctx) with a context that is already cancelled
     [] o = "brL1"     -> [c EXCEPT !.brL = "L1"]
     [] o = "brL2"     -> [c EXCEPT !.brL = "L2"]
     [] o = "brI1"     -> [c EXCEPT !.brI = "I1"]
@@ -92,8 +93,12 @@ NoPathWalk    == [k |-> "walk-nopaths"]
 NoPathMkdir(c)  == [k |-> "mkdir-nopaths",  exts |-> c.exts, target |-> c.target]
 NoPathVerify(c) == [k |-> "verify-nopaths", target |-> c.target, strict |-> c.strict]
 
+\* massive mode with a context that is cancelled before the call: the context's error, whatever else was asked for (C11)
+Cancelled == [k |-> "cancelled"]
+
 \* what the documentation of the options says
 RuleEff(o, f, c) ==
+  IF c.massive = "cancelled" THEN Cancelled ELSE
   CASE o = "output" -> IF c.dry THEN ReportEff(c)
                        ELSE IF c.encode = "text" THEN TextEff(c) ELSE EncEff(c)
     [] o = "walk"   -> WalkEff(c)
@@ -104,6 +109,7 @@ RuleEff(o, f, c) ==
 \*   grower   = nop if encode # text, else branches (+ validation when dry or mkdir/verify enable it)
 \*   spreader = colourising if dry, else by encode
 CodeEff(o, f, c) ==
+  IF c.massive = "cancelled" THEN Cancelled ELSE
   LET nop == c.encode # "text" /\ "EncodeDisablesGrower" \in Dev IN
   CASE o = "output" /\ f = "md" ->
          IF c.dry THEN (IF nop THEN FlatEff(c) ELSE ReportEff(c))
@@ -112,7 +118,7 @@ CodeEff(o, f, c) ==
          \* outputProgrammably: encode # default -> grow + spread; else growAndSpread (never looks at dryrun)
          \* the pipeline has no growAndSpread: in massive mode it is the From-Markdown case
          IF c.encode # "text" THEN (IF c.dry THEN (IF nop THEN FlatEff(c) ELSE ReportEff(c)) ELSE EncEff(c))
-         ELSE IF c.dry /\ (c.massive \/ "RootTextIgnoresDry" \notin Dev) THEN ReportEff(c)
+         ELSE IF c.dry /\ (c.massive = "yes" \/ "RootTextIgnoresDry" \notin Dev) THEN ReportEff(c)
          ELSE TextEff(c)
     [] o = "walk"   -> IF nop THEN NoPathWalk ELSE WalkEff(c)
     [] o = "mkdir"  -> IF c.dry THEN (IF nop THEN FlatEff(c) ELSE ReportEff(c))
